@@ -10,6 +10,8 @@ import (
 	"strings"
 
 	"github.com/open2b/scriggo"
+
+	"verifharness/internal/proto"
 )
 
 // Program text for a batch of cases, for Scriggo (println through the Print hook) and for gc
@@ -24,7 +26,7 @@ func programText(cases []*tcase, forGC bool) string {
 	var b strings.Builder
 	b.WriteString("package main\n\n")
 	if forGC {
-		b.WriteString("import \"fmt\"\n\nfunc show(i int, v any) { fmt.Printf(\"R %d %T %v\\n\", i, v, v) }\n\n")
+		b.WriteString("import \"fmt\"\n\nfunc show(i int, v any) {\n\tif s, ok := v.(string); ok {\n\t\tif s == \"\" {\n\t\t\tfmt.Printf(\"R %d string -\\n\", i)\n\t\t} else {\n\t\t\tfmt.Printf(\"R %d string %x\\n\", i, s)\n\t\t}\n\t\treturn\n\t}\n\tfmt.Printf(\"R %d %T %v\\n\", i, v, v)\n}\n\n")
 	}
 	// package-level variables (their initialisers share one function and its 127 integer
 	// registers: only the first maxGlobals are package-level, the rest become locals)
@@ -140,7 +142,11 @@ func runScriggo(cases []*tcase) (outcome []string, err error) {
 			if ok && i >= 0 && i < len(outcome) {
 				switch tag {
 				case "R":
-					outcome[i] = fmt.Sprintf("ok %T %v", cur[4], cur[4])
+					if s, ok := cur[4].(string); ok {
+						outcome[i] = "ok string " + proto.Hex([]byte(s))
+					} else {
+						outcome[i] = fmt.Sprintf("ok %T %v", cur[4], cur[4])
+					}
 				case "P":
 					s, _ := cur[4].(string)
 					outcome[i] = classifyPanic(s)
